@@ -139,6 +139,15 @@ fn build(w: &mut World, d: &Value) -> Built {
     let slot = w.run * 1000 + uz(&d["slot"]);
     let owner = bls_key(slot);
     let stranger = bls_key(slot + 500);
+    // "victim": content of another owner / other bytes, presented under the key of the slot owner's record
+    let victim = st(&d["key"], "derived") == "victim";
+    let mut dv = d.clone();
+    if victim {
+        dv["owner"] = json!("other");
+        dv["variant"] = json!(1);
+        if let Some(a) = dv["txs"].as_array_mut() { for t in a.iter_mut() { t["owner"] = json!("other"); } }
+    }
+    let d = &dv;
     let pay = if d["pay"].is_object() { Some(Pay::from_json(&d["pay"])) } else { None };
     let me = w.n.kp.clone();
     let mk_proof = |w: &World, content: XorName, p: Pay| proof(&me, &w.near, &w.far, &w.forger, content, p);
@@ -184,7 +193,7 @@ fn build(w: &mut World, d: &Value) -> Built {
             (v, derived)
         }
         "Register" | "RegisterWithPayment" => {
-            let base = register_base(&owner, slot);
+            let base = if victim { register_base(&stranger, slot) } else { register_base(&owner, slot) };
             let mut ops = vec![];
             for o in d["ops"].as_array().cloned().unwrap_or_default() {
                 let sig = st(&o["sig"], "ok");
@@ -214,7 +223,15 @@ fn build(w: &mut World, d: &Value) -> Built {
         "garbage" => { let n = value.len(); for b in value.iter_mut().skip(3) { *b = b.wrapping_mul(31).wrapping_add(7); } let _ = n; }
         _ => {}
     }
-    let key = if st(&d["key"], "derived") == "derived" { derived.clone() } else { other_key(slot * 10 + uz(&d["variant"])) };
+    let key = if st(&d["key"], "derived") == "derived" { derived.clone() } else if victim {
+        // the key of the record the slot owner holds for this family
+        match kind {
+            "Chunk" | "ChunkWithPayment" => NetworkAddress::from_chunk_address(*chunk_of(slot * 10).address()).to_record_key(),
+            "Scratchpad" | "ScratchpadWithPayment" => NetworkAddress::ScratchpadAddress(ant_protocol::storage::ScratchpadAddress::new(owner.public_key())).to_record_key(),
+            "Transaction" | "TransactionWithPayment" => NetworkAddress::from_transaction_address(transaction(&owner, &owner, 0).address()).to_record_key(),
+            _ => NetworkAddress::from_register_address(*register_base(&owner, slot).address()).to_record_key(),
+        }
+    } else { other_key(slot * 10 + uz(&d["variant"])) };
     let size = value.len();
     Built { record: record(key, value), derived, size }
 }
@@ -263,6 +280,8 @@ async fn deliver(w: &mut World, t: &mut Trace, d: &Value, src: &str) {
         "pad": {"c": uz(&d["c"]).max(1), "sig": st(&d["sig"], "ok"), "content": uz(&d["content"])},
         "txs": d["txs"].as_array().map(|a| a.iter().map(|t| json!({"id": uz(&t["id"]), "ok": st(&t["sig"], "ok") == "ok" && st(&t["owner"], "same") == "same"})).collect::<Vec<_>>()).unwrap_or_default(),
         "ops": d["ops"].as_array().map(|a| a.iter().map(|o| json!({"id": uz(&o["id"]), "ok": st(&o["sig"], "ok") == "ok"})).collect::<Vec<_>>()).unwrap_or_default()});
+    let mut spec = spec;
+    spec["heldIdx"] = before_d["listed"].clone();
     t.emit(json!({"ev":"Deliver","d":spec,"aBeforeD":abs(&before_d),"aAfterD":abs(&after_d),"aBeforeP":abs(&before_p),"aAfterP":abs(&after_p),
         "gained":gained,"lost":lost,"derivedOK":derived_ok(&after_d, dk) && derived_ok(&after_p, pk),"contentOK":content_ok(&after_d) && content_ok(&after_p),
         "spec":d,"res":res,"presentedKey":pk,"derivedKey":dk,"size":b.size,
@@ -336,6 +355,7 @@ async fn run() {
     let work = PathBuf::from(arg("--work").expect("--work"));
     let seed = vtrace::seed_from_env();
     let mut t = Trace::create(&out);
+    gates_install();
     let mut w = World::new(seed, work.join("node"));
     if let Some(p) = arg("--scenarios") {
         for scn in read_ndjson(&p) {
@@ -347,8 +367,22 @@ async fn run() {
                 concurrent(&mut w, &mut t, &scn).await;
                 continue;
             }
-            for s in scn.as_array().expect("scenario array") {
-                deliver(&mut w, &mut t, s, "tlc").await;
+            let steps = scn.as_array().expect("scenario array");
+            // "gated" scenarios: the disk writes of the whole sequence stay parked (the index lags behind
+            // the accepted writes, as between PutLocalRecord and AddLocalRecordAsStored) until the end
+            let gated = steps.first().map(|s| s["gated"] == json!(true)).unwrap_or(false);
+            gates_hold(gated);
+            for s in steps {
+                deliver(&mut w, &mut t, s, if gated { "tlc-gated" } else { "tlc" }).await;
+            }
+            if gated {
+                gates_hold(false);
+                let released = gates_release_all();
+                settle(&mut w.n).await;
+                let last = steps.last().cloned().unwrap_or(json!({}));
+                let b = build(&mut w, &last);
+                let after = w.held(&b.derived, uz(&last["slot"]));
+                t.emit(json!({"ev":"Settled","released":released,"aAfterD":abs(&after),"contentOK":content_ok(&after),"listed":after["listed"],"src":"tlc-gated"}));
             }
         }
     }
